@@ -107,6 +107,12 @@ class ScaledValueExpression(inline.InlineElement):  # type: ignore
     :py;class:`~ScaledValueString`.
     """
 
+    children: str
+    """
+    A plain text (unscaled) rendering of the string. Used by Marko in contexts
+    where only plain text may appear (e.g. image alt text).
+    """
+
     def __init__(self, match: Match[str]) -> None:
         self.string = SVS(
             [
@@ -135,6 +141,7 @@ class ScaledValueExpression(inline.InlineElement):  # type: ignore
                 for submatch in self.any_part_pattern.finditer(match["source"])
             ]
         )
+        self.children = str(self.string)
 
 
 class LogPosMixin:
